@@ -53,7 +53,9 @@ func (k *zzKV) Get(ctx context.Context, key ds.Key) ([]byte, error) {
 	}
 	return nil, ds.ErrNotFound
 }
-func (k *zzKV) Has(ctx context.Context, key ds.Key) (bool, error) { return k.find(key.String()) >= 0, nil }
+func (k *zzKV) Has(ctx context.Context, key ds.Key) (bool, error) {
+	return k.find(key.String()) >= 0, nil
+}
 func (k *zzKV) GetSize(ctx context.Context, key ds.Key) (int, error) {
 	if i := k.find(key.String()); i >= 0 {
 		return len(k.vals[i]), nil
@@ -101,8 +103,8 @@ func (r *zzResults) NextSync() (query.Result, bool) {
 	return v, ok
 }
 func (r *zzResults) Rest() ([]query.Entry, error) { return nil, nil }
-func (r *zzResults) Close() error                  { return nil }
-func (r *zzResults) Done() <-chan struct{}         { return nil }
+func (r *zzResults) Close() error                 { return nil }
+func (r *zzResults) Done() <-chan struct{}        { return nil }
 
 var zzPerms3 = [][]int{{0, 1, 2}, {0, 2, 1}, {1, 0, 2}, {1, 2, 0}, {2, 0, 1}, {2, 1, 0}}
 
